@@ -628,20 +628,20 @@ def run_instance(S, family, p0, names, doms, kind, exhaustive):
         p = copy.deepcopy(p0)
         p._reset_adaptation()
         S.br('after _reset_adaptation')
-        for xi, given in pairs[:4]:
+        for xi, given in pairs[:3]:
             S.query(family, p, xi, given)
         if family not in Q.SPHERE:
-            S.jump_checks(family, p, pts[0], 2)
+            S.jump_checks(family, p, pts[0], 1)
     if family in Q.PERPARAM and getattr(p0, 'isdiagonal', True):
         p = copy.deepcopy(p0)
         p.std = numpy.array(p._std, dtype=float) * numpy.array([1.7, 0.6, 1.3])[:len(names)]
         S.br('after assignment to std')
-        for xi, given in pairs[:4]:
+        for xi, given in pairs[:3]:
             S.query(family, p, xi, given)
-        S.jump_checks(family, p, pts[0], 2)
+        S.jump_checks(family, p, pts[0], 1)
         p.cov = (numpy.array(p._std, dtype=float) * 0.8) ** 2
         S.br('after assignment to cov')
-        for xi, given in pairs[4:7]:
+        for xi, given in pairs[3:5]:
             S.query(family, p, xi, given)
 
 
